@@ -126,6 +126,9 @@ def model_faults(spec):
             fixed = [k for k, v in d["params"].items() if not isinstance(v, dict)]
             for k in fixed[:1]:
                 out.append(Fault("parameter-fixed-and-dependent", i, k))
+            # the same malformation with a FALSY fixed value (exactly zero), for every parameter
+            for k in R.PARAMS[d["fam"]]:
+                out.append(Fault("parameter-fixed-and-dependent", i, k + "=0"))
             if len(deps) >= 1:
                 out.append(Fault("parameter-neither-fixed-nor-dependent", i, deps[0]))
         if i > 0:
@@ -166,6 +169,14 @@ def apply_model_fault(descs, spec, f):
     elif f.kind == "unknown-parameter-name":
         d["parameters"] = dict(d["parameters"])
         d["parameters"]["not_a_parameter"] = _const_dep(1.0)
+    elif f.kind == "parameter-fixed-and-dependent" and f.variant.endswith("=0"):
+        name = f.variant[:-2]
+        cur = spec["dims"][i]["params"]
+        fixed_kw = {f"f_{k}": v for k, v in cur.items() if not isinstance(v, dict)}
+        fixed_kw[f"f_{name}"] = 0.0
+        d["distribution"] = S.classes()[fam](**fixed_kw)
+        d["parameters"] = dict(d["parameters"])
+        d["parameters"][name] = _const_dep(0.5)
     elif f.kind == "parameter-fixed-and-dependent":
         d["parameters"] = dict(d["parameters"])
         d["parameters"][f.variant] = _const_dep(float(spec["dims"][i]["params"][f.variant]))
